@@ -146,7 +146,20 @@ def r2_flag_carried(cx):
         raw, comp = bool(fal & fields), bool(tru & fields)
         slot = "raw" if raw and not comp else ("comp" if comp and not raw else "?")
         got[slot] = op_const_deep(zb, t["args"][2])
-    cx.ob("R2", "R2/finalize-slots", got == {"raw": False, "comp": True}, fz, "finalize flushes the raw slot with compressed=false and the compressed slot with compressed=true (%s)" % got)
+    okz = got == {"raw": False, "comp": True}
+    if not okz and SLOTS:
+        # the two slots flushed by one piece of code run for `false` then `true` (a loop over both values, a helper): at
+        # every site the flag given to write_cluster is the very value the slot was chosen with, with the same mapping
+        okz = bool(wcs)
+        for i, t in wcs:
+            root = op_base_local(t["args"][2])
+            same = _flag_locals(zb, {root}) | {root}
+            back = {x[1] for x in zb.origins(t["args"][2], through_calls=False) if x[0] == "local"}
+            sws = [s_ for s_ in range(zb.n) if zb.term(s_)["k"] == "switch" and not zb.is_cleanup(s_) and _slot_by_flag(zb, s_) is not None
+                   and (op_base_local(zb.term(s_)["op"]) in same or zb.origins(zb.term(s_)["op"], through_calls=False) & zb.origins(t["args"][2], through_calls=False))]
+            okz = okz and bool(sws) and all(_slot_by_flag(zb, s_) == SLOTS for s_ in sws) and any(zb.dominates(s_, i) for s_ in sws)
+        got = {"by-flag": okz}
+    cx.ob("R2", "R2/finalize-slots", okz, fz, "finalize flushes the raw slot with compressed=false and the compressed slot with compressed=true (%s)" % got)
 
 
 def _slot_by_flag(b, s):
@@ -323,8 +336,13 @@ def r4_dedup(cx):
     for i, t in one:       # one-shot hash of that buffer
         if any(gb.dominates(r, i) for r in good_r):
             feed.add(i)
+    good_u = {u for u, ut in updr if fresh_hasher(ut) and whole_reader(ut)}
     for i, t in rw:        # streamed: update_reader(whole reader) then the reader is put back at its start
-        if any(gb.dominates(u, i) and fresh_hasher(ut) and whole_reader(ut) for u, ut in updr) and whole_reader(t):
+        if not whole_reader(t) or not good_u:
+            continue
+        # (on every feasible path: the stage that hashed may hand over a value -- "nothing kept in memory" -- that a later
+        #  stage matches on before it rewinds)
+        if any(gb.dominates(u, i) for u in good_u) or i not in gb.explore(avoid=good_u | gb.error_blocks())[0]:
             feed.add(i)
     for i, t in cc:
         ko = gb.origins(t["args"][1])
@@ -337,7 +355,7 @@ def r4_dedup(cx):
             if call_is(kt, r"Hasher::finalize$") and not fresh_hasher(kt):
                 ok = False
                 why.append("the hasher finalised at line %s is not created by Hasher::new() in this call" % kt.get("ln"))
-        if not gb.set_dominates(feed, i, avoid=gb.error_blocks()):
+        if not gb.set_dominates(feed, i, avoid=gb.error_blocks()) and i in gb.explore(avoid=feed | gb.error_blocks())[0]:
             ok = False
             why.append("a path reaches cache_content (line %s) without having hashed the whole content (read_to_end of the content + update/hash, or update_reader(content) + rewind)" % t.get("ln"))
     msg = "; ".join(why) or "ok"
